@@ -83,6 +83,11 @@ class Taint(AbstractValue):
             return Cond(('strtest', name, _freeze(args), self.prov))
         if name in ('split', 'splitlines', 'rsplit'):
             return AbsSeq(('split', self.prov), lambda i: self.clone(), minlen=1)
+        if name in ('partition', 'rpartition') and len(args) == 1 and isinstance(args[0], str):
+            # (head, separator or '', tail): both pieces are pieces of this text
+            sep = Cond(('contains', args[0], self.prov))
+            found = interp.truth(sep)
+            return (self.clone(), args[0] if found else '', self.clone() if found or name == 'rpartition' else '')
         if name == 'encode':
             return self.clone()
         if name == 'format':
@@ -279,8 +284,10 @@ class Skel(AbstractValue):
                 if 0 <= i < len(parts) and isinstance(parts[i], Hole) and isinstance(parts[i].value, Taint):
                     parts[i] = Hole(parts[i].value.clone(op=name))
             return Skel(parts) if parts != list(self.parts) else self
-        if name in ('splitlines', 'split'):
-            return AbsSeq(('split', id(self)), lambda i: Markup(what='line of rendered text'))
+        if name in ('splitlines', 'split', 'rsplit'):
+            # each piece is made of (some of) the same parts: what the text carries, its pieces may carry
+            parts = list(self.parts)
+            return AbsSeq(('split', id(self)), lambda i: Skel(list(parts)), minlen=1)
         if name in ('startswith', 'endswith'):
             return Cond(('strtest', name, _freeze(args), id(self)))
         if name == 'format':
